@@ -172,7 +172,7 @@ class Batch:
                 os.makedirs(d, exist_ok=True)
                 for file, funcs in files.items():
                     with open(os.path.join(d, file + ".go"), "w") as f:
-                        f.write(pgen.render_file(pkg, funcs, mode))
+                        f.write(pgen.render_file(pkg, funcs, mode, getattr(self, 'styles', {}).get((pkg, file), 'dot')))
         for (pkg, filename), text in self.extra_src.items():
             d = os.path.join(w, "src", pkg)
             os.makedirs(d, exist_ok=True)
